@@ -200,6 +200,20 @@ func TransferStack(c *lib.Chain) porttypes.IBCModule {
 //	if ack == nil || ack.Success() { writeFn() }
 //
 // (proof verification, receipts and WriteAcknowledgement belong to the core and are not run).
+// CoreRecvTx is CoreRecv inside the MsgRecvPacket transaction: a panic of the application callback fails the transaction —
+// nothing is written (neither the branch nor anything else) and no acknowledgement is stored.
+func CoreRecvTx(c *lib.Chain, ctx sdk.Context, pkt channeltypes.Packet, relayer sdk.AccAddress) (success bool, ack []byte, panicked interface{}) {
+	txCtx, writeTx := ctx.CacheContext()
+	defer func() {
+		if r := recover(); r != nil {
+			success, ack, panicked = false, nil, r
+		}
+	}()
+	success, ack = CoreRecv(c, txCtx, pkt, relayer)
+	writeTx()
+	return success, ack, nil
+}
+
 func CoreRecv(c *lib.Chain, ctx sdk.Context, pkt channeltypes.Packet, relayer sdk.AccAddress) (success bool, ack []byte) {
 	cacheCtx, writeFn := ctx.CacheContext()
 	a := TransferStack(c).OnRecvPacket(cacheCtx, pkt, relayer)
